@@ -165,6 +165,147 @@ def gen_support_scene(rng):
     return dict(part="narrow", only_support=True, c1=s1, c2=s2, meta=meta, R=Rm.tolist(), t=[float(x) for x in t], s=float(s), dirs=dirs)
 
 
+# ----------------------------------------------------------------------------- near-identity frames far from the origin
+# A pose whose rotation block is within 1e-5 rad of the identity (accumulated joint transforms, calibration results) is a
+# perfectly valid pose; code that inverts / composes poses must treat it like any other.  An absolute tolerance on the
+# rotation ("trace(R) > 3 - eps => pure translation") is invisible near the origin and for ordinary rotations: its effect is
+# angle * |translation|.  This stream therefore pairs such frames with translations up to the 1e3 the domain allows.
+I3 = [[1.0, 0.0, 0.0], [0.0, 1.0, 0.0], [0.0, 0.0, 1.0]]
+COORD_AXES = [[1.0, 0.0, 0.0], [0.0, 1.0, 0.0], [0.0, 0.0, 1.0], [-1.0, 0.0, 0.0], [0.0, -1.0, 0.0], [0.0, 0.0, -1.0]]
+POSED = ("box", "ellipsoid", "cylinder")
+NEARID_FUNCS = [f for f in pl.FUNCS if any(k in POSED for k in pl.kinds_of(f))]
+
+
+def near_identity_rot(rng, exact=0.24):
+    """a rotation matrix (nested lists): exactly the identity, exactly an axis permutation, or a turn by 1e-9 .. 1e-5 rad
+    about a coordinate / random axis (optionally composed with an axis permutation)"""
+    u = rng.random()
+    if u < 0.5 * exact:
+        return [list(r) for r in I3]
+    if u < exact:
+        return [list(r) for r in rng.choice(pl.PERM_ROT)]
+    ang = 10 ** rng.uniform(-9.0, -5.0)
+    ax = list(rng.choice(COORD_AXES)) if rng.random() < 0.3 else pl.unit([rng.gauss(0, 1) for _ in range(3)])
+    M = pl.axis_angle(ax, ang)
+    if rng.random() < 0.2:
+        M = pl.matmul(M, rng.choice(pl.PERM_ROT))
+    return M
+
+
+def far_translation(rng, far):
+    """translation of length up to 985 - far (mostly large), random / along a coordinate axis / on the quarter lattice"""
+    rad = max(0.0, 985.0 - far)
+    r = rad * (rng.uniform(0.3, 1.0) if rng.random() < 0.8 else rng.uniform(0.0, 0.3))
+    u = list(rng.choice(COORD_AXES)) if rng.random() < 0.15 else pl.unit([rng.gauss(0, 1) for _ in range(3)])
+    t = [r * x for x in u]
+    if rng.random() < 0.3:
+        t = [round(4 * x) / 4 for x in t]
+    return t
+
+
+def gen_nearid_prim_scene(rng, fn):
+    """distance3d.distance call whose primitives' frames are near-identity rotations; either the scene sits near the origin
+    and the motion is (identity | near-identity | axis permutation) + a far translation, or the scene itself sits far out
+    and the motion is an arbitrary rotation"""
+    ka, kb = pl.kinds_of(fn)
+    far_scene = rng.random() < 0.35
+    for _ in range(60):
+        mode = rng.choice(["lattice", "lattice", "random"])
+        if mode == "lattice":
+            o = [rng.choice([0.0, 0.0, 1.0, -2.0]) for _ in range(3)]
+            off = [rng.choice(pl.LAT_OFFS) for _ in range(3)]
+            size = None
+        else:
+            size = 10 ** rng.uniform(-0.5, 0.7)
+            o = [rng.uniform(-3, 3) for _ in range(3)]
+            dv = pl.unit([rng.gauss(0, 1) for _ in range(3)])
+            off = [size * 10 ** rng.uniform(-1, 0.7) * x for x in dv]
+        if far_scene:
+            sh = far_translation(rng, 100.0)
+            if mode == "lattice":
+                sh = [round(4 * x) / 4 for x in sh]
+            o = [o[i] + sh[i] for i in range(3)]
+        MB = near_identity_rot(rng)
+        MA = near_identity_rot(rng) if rng.random() < 0.6 else (pl.lattice_rot(rng) if mode == "lattice" else pl.random_rot(rng))
+        A = pl.gen_prim(rng, ka, mode, o, m=MA, size=size)
+        B = pl.gen_prim(rng, kb, mode, [o[i] + off[i] for i in range(3)], m=MB, size=size)
+        if pl.in_domain(A, B):
+            break
+    else:
+        c = pl.gen_pair(rng, fn, "lattice")
+        A, B = c["A"], c["B"]
+    far = max(prim_far(A), prim_far(B))
+    if far_scene:
+        Rm = pl.random_rot(rng) if rng.random() < 0.6 else pl.lattice_rot(rng)
+        rad = max(0.0, 985.0 - far)
+        u = pl.unit([rng.gauss(0, 1) for _ in range(3)])
+        r = rng.uniform(0, rad)
+        t = [r * x for x in u]
+    else:
+        Rm = near_identity_rot(rng, exact=0.6)
+        t = far_translation(rng, far)
+    s = gen_scale(rng, pl.feature_sizes(A) + pl.feature_sizes(B), far, 0.2, 100.0)
+    return dict(part="prim", fn=fn, A=A, B=B, stream="nearid-far" if far_scene else "nearid", R=Rm, t=t, s=float(s))
+
+
+def set_frame(spec, Q):
+    """the collider with its own frame replaced by Q (pose kinds, disk normal, ellipse axes); vertex hulls, which have no
+    frame, are turned by Q about their centre"""
+    Q = np.array(Q, float)
+    s = dict(spec)
+    if "pose" in s:
+        T = np.array(s["pose"], float)
+        T[:3, :3] = Q
+        s["pose"] = T.tolist()
+    elif "normal" in s:
+        s["normal"] = Q[:, 2].tolist()
+    elif "axes" in s:
+        s["axes"] = [Q[:, 0].tolist(), Q[:, 1].tolist()]
+    elif s["kind"] == "hull":
+        c = nw.center_of(s)
+        s = nw.transform_spec(s, Q, c - Q @ c)
+    return s
+
+
+def nearid_pair(rng, tier):
+    s1, s2, meta = nw.gen_pair(rng, tier, stream=rng.choice(["lattice", "lattice", "moderate"]), margin_prob=0.1)
+    s1, s2 = set_frame(s1, near_identity_rot(rng)), set_frame(s2, near_identity_rot(rng))
+    far_scene = rng.random() < 0.35
+    if far_scene:
+        sh = np.array(far_translation(rng, 100.0))
+        if meta["stream"] == "lattice":
+            sh = np.round(sh * 4) / 4
+        s1, s2 = nw.translate_spec(s1, sh), nw.translate_spec(s2, sh)
+    meta = dict(meta, stream="nearid-far" if far_scene else "nearid", L=nw.scene_scale([s1, s2]))
+    meta.pop("identical", None)
+    far = far_of([s1, s2])
+    if far_scene:
+        Rm, t = gen_motion(rng, far)
+    else:
+        Rm, t = np.array(near_identity_rot(rng, exact=0.6)), np.array(far_translation(rng, far))
+    return s1, s2, meta, Rm, t
+
+
+def gen_nearid_scene(rng, tier, only_support=False):
+    """collider scene of the near-identity stream (full query set, or the closed-form support layer only)"""
+    s1, s2, meta, Rm, t = nearid_pair(rng, tier)
+    s = gen_scale(rng, spec_sizes(s1) + spec_sizes(s2), far_of([s1, s2]), 1e-2, 1e2)
+    sc = dict(part="narrow", c1=s1, c2=s2, meta=meta, R=np.array(Rm).tolist(), t=[float(x) for x in t], s=float(s))
+    dirs = []
+    for sp in (s1, s2):
+        for a in own_axes(sp):
+            dirs.append(a)
+            if only_support:
+                dirs.append([-x for x in a])
+    if only_support:
+        sc["only_support"] = True
+        sc["dirs"] = dirs + COORD_AXES[:3] + [nw.rand_unit(rng).tolist()]
+    else:
+        sc["dirs"] = [nw.rand_unit(rng, rng.choice(["random", "lattice"])).tolist() for _ in range(2)] + \
+            [rng.choice(own_axes(sp) or [[1.0, 0.0, 0.0]]) for sp in (s1, s2)]
+    return sc
+
+
 def scene_ops(scene):
     s1, s2 = scene["c1"], scene["c2"]
     if scene.get("only_support"):
@@ -802,7 +943,10 @@ def run(tier, seed, replay=None):
         "of the 34 distance3d.distance functions (streams of harness/primlib.gen_pair: random, far, lattice, touch, same, rotlat), "
         "together with one rigid motion (random rotation | one of the 24 axis permutations, optionally with a 45 degree turn; "
         "translation keeping the scene within 1e3 of the origin) and one scale factor in [1e-2,1e2] keeping all sizes in the "
-        "domain; distinct by canonical hash of (scene, motion, scale); non-trivial = at least one scalar comparison between two "
+        "domain; stream nearid: frames of both arguments within 1e-9 .. 1e-5 rad of the identity / of an axis permutation (or exactly "
+        "so), scene near the origin moved by (identity | near-identity | axis permutation) + a translation up to 985, or scene "
+        "up to 985 from the origin moved by an arbitrary rotation, for all 34 distance functions (12 per posed function) and "
+        "collider scenes; distinct by canonical hash of (scene, motion, scale); non-trivial = at least one scalar comparison between two "
         "forms of the scene was actually made (not skipped as raised / known finding / band)")
     R.assumptions += [
         "theorems (Props/C12.v) are about the Gallina model in exact real arithmetic and about the Spec-level notions dist_ge / dist_le "
@@ -846,6 +990,16 @@ def run(tier, seed, replay=None):
         for fn in pl.FUNCS:
             for _ in range(per_fn):
                 scenes.append(gen_prim_scene(R.rng, fn))
+        # near-identity frames x far translations (see near_identity_rot): every distance function, with more weight on the
+        # ones that take a 4x4 pose (box, ellipsoid, cylinder: the code evaluates them in the local frame), and collider scenes
+        n_posed, n_other, n_near_nar = (12, 3, 14) if tier == "quick" else (120, 30, 150)
+        if cm.os.environ.get("C12_NEARID"):            # development aid only
+            n_posed, n_other, n_near_nar = (int(x) for x in cm.os.environ["C12_NEARID"].split(","))
+        for fn in pl.FUNCS:
+            for _ in range(n_posed if fn in NEARID_FUNCS else n_other):
+                scenes.append(gen_nearid_prim_scene(R.rng, fn))
+        for k in range(2 * n_near_nar):
+            scenes.append(gen_nearid_scene(R.rng, tier, only_support=bool(k % 2)))
     nar = [s for s in scenes if s.get("part") == "narrow"]
     prim = [s for s in scenes if s.get("part") == "prim"]
     T = Tally()
